@@ -353,7 +353,10 @@ func (w *World) Step(tr *vutil.Trace, o AbsOp, amount string, gas string) *execd
 		w.addr[o.B] = res.Receipts[0].ContractAddress.GetHexString()
 		w.isCon[o.B] = true
 	}
-	if ok && (o.Op == "SelfDestruct" || o.Op == "SelfDestruct2") && w.isCon[o.B] {
+	// SelfDestruct2: the second transaction of the block destroys the contract on its own when the
+	// first one was refused (e.g. for an ill-formed amount)
+	ok2 := tx2 != nil && res.Ok(tx2.Hash)
+	if ((ok && (o.Op == "SelfDestruct" || o.Op == "SelfDestruct2")) || (ok2 && o.Op == "SelfDestruct2")) && w.isCon[o.B] {
 		w.isCon[o.B] = false
 		w.addr[o.B] = eoa[o.B]
 	}
